@@ -11,7 +11,7 @@ VAL = {'C': 4, 'N': 3, 'O': 2, 'S': 2, 'P': 3, 'F': 1, 'Cl': 1, 'Br': 1}
 SYM = {0: '.', 1: '', 2: '=', 3: '#', 4: '$', 1.5: ''}
 
 
-def rnd_mol(rng, n, aromatic_p=0.3, charged_p=0.1, pyrrole_p=0.0):
+def rnd_mol(rng, n, aromatic_p=0.3, charged_p=0.1, pyrrole_p=0.0, biaryl_p=0.0):
     """valence-respecting random molecule over the organic subset.
     nodes: element, charge, aromatic, h (hydrogens required); edges: order (1,2,3, 1.5 in aromatic rings)"""
     g = nx.Graph()
@@ -51,6 +51,20 @@ def rnd_mol(rng, n, aromatic_p=0.3, charged_p=0.1, pyrrole_p=0.0):
         for r in ring:
             g.nodes[r]['aromatic'] = True
             free[r] -= 3
+        if biaryl_p and rng.random() < biaryl_p and n >= 12:
+            # a second aromatic ring on an aromatic carbon of the first: the bond between the rings is a SINGLE bond
+            # between two aromatic atoms (written '-'; not part of a ring, so it is not re-perceived as aromatic)
+            cs = [r for r in ring if g.nodes[r]['element'] == 'C']
+            ring2 = [add('C') for _ in range(6)]
+            for a, b in zip(ring2, ring2[1:] + ring2[:1]):
+                g.add_edge(a, b, order=1.5)
+            for r in ring2:
+                g.nodes[r]['aromatic'] = True
+                free[r] -= 3
+            a = rng.choice(cs)
+            g.add_edge(a, ring2[0], order=1)
+            free[a] -= 1
+            free[ring2[0]] -= 1
     else:
         add('C')
     while len(g) < n:
@@ -369,10 +383,10 @@ def graph_to_json(g):
 
 
 def cut_case(rng, nmin=3, nmax=12, share_p=0.0, virtual=0, aromatic_p=0.25, label_p=1.0,
-             kinds=('$', '><'), anno_p=0.0, pyrrole_p=0.0):
+             kinds=('$', '><'), anno_p=0.0, pyrrole_p=0.0, biaryl_p=0.0):
     """one C01-style case: a molecule, the uncut description and a cut description"""
     while True:
-        g = rnd_mol(rng, rng.randint(nmin, nmax), aromatic_p=aromatic_p, pyrrole_p=pyrrole_p)
+        g = rnd_mol(rng, rng.randint(nmin, nmax), aromatic_p=aromatic_p, pyrrole_p=pyrrole_p, biaryl_p=biaryl_p)
         nf = rng.randint(1, min(5, len(g)))
         base, frag_text, part, nshared = cut_description(rng, g, nf, kinds=kinds, share_p=share_p, label_p=label_p, anno_p=anno_p)
         if base.number_of_edges() and max(o for *_, o in base.edges(data='order')) > 4:
